@@ -169,6 +169,12 @@ def gen_angles(rng, n, tier="quick"):
                 dt2 = dt.replace(fold=1 - dt.fold)
                 n2 = dt2.astimezone(UTC).replace(tzinfo=None)
                 spell.append((dt2, z.describe() + " fold", n2))
+            if z.iana and rng.random() < 0.35:
+                dt3 = u.astimezone(zones.docs(z))
+                spell.append((dt3, z.describe() + " user-tzinfo", naive))
+        if rng.random() < 0.3:
+            dts, zls, asu = rng.choice(spell)
+            spell.append((gens.as_sub(dts), zls + " (datetime subclass)", asu))
         rng.shuffle(spell)
         for dt, zl, as_utc in spell:
             name = ("azimuth", "elevation", "zenith")[i % 3]
